@@ -145,7 +145,37 @@ def build(spec):
         sim.exact_finish_time = 0
     if integ == "eos":
         sim.ri_eos.n = 2
+    # ---- optional state the serializer has to carry (every kind gets its own scenario in the harness)
+    if spec.get("n_test"):                       # test particles behind N_active
+        na = sim.N
+        for i in range(spec["n_test"]):
+            sim.add(m=0.0, a=2.0 + 0.3 * n + 0.21 * i, e=rng.uniform(0, 0.05), f=rng.uniform(0, 6), primary=sim.particles[0])
+        sim.N_active = na
+    if spec.get("variations"):                   # first-order variational particles
+        for i in range(spec["variations"]):
+            v = sim.add_variation()
+            v.particles[1 + i % max(1, n)].x = 1.0
+    if spec.get("megno"):                        # MEGNO = variational particles + bookkeeping in the simulation struct
+        sim.init_megno(seed=spec["seed"] % 1000 + 1)
+    if spec.get("ode"):                          # a user ODE integrated along with the N-body system (BS only)
+        ode = sim.create_ode(length=2, needs_nbody=False)
+        ode.derivatives = _ode_rhs
+        ode.y[0] = 1.0; ode.y[1] = 0.0
+        sim._c19_ode = ode
     return sim
+
+
+def _ode_rhs(ode, yDot, y, t):
+    yDot[0] = y[1]
+    yDot[1] = -4.0 * y[0]
+
+
+def extra_state_bits(sim):
+    out = []
+    o = getattr(sim, "_c19_ode", None)
+    if o is not None:
+        out += [struct.pack("<d", o.y[0]).hex(), struct.pack("<d", o.y[1]).hex()]
+    return out
 
 
 def job(spec, tmpdir, out, k):
@@ -395,11 +425,24 @@ def mode_server(p):
             got, errs = stop_clients(*cl)
             sim.stop_server()
         final = sha(canon(stream_of(sim)))
+        if with_server:
+            return rec, order, got, errs, final, (particle_bits(sim), extra_state_bits(sim), float(sim.t).hex(), int(sim.steps_done))
         return rec, order, got, errs, final, recbytes
 
+    # run 0: the UNOBSERVED trajectory: no server, no heartbeat, nothing ever serialises the simulation
+    sim0 = build(spec)
+    if sleep_s > 0:
+        sim0.additional_forces = lambda sp: None          # same code path as the observed runs (a callback is installed), no sleep
+    t0_ = 0.0
+    for i in range(p["calls"]):
+        t0_ += tmax / p["calls"]
+        sim0.integrate(t0_, exact_finish_time=eft)
+    unobs = (particle_bits(sim0), extra_state_bits(sim0), float(sim0.t).hex(), int(sim0.steps_done))
     recA, orderA, _, _, finalA, bytesA = run(False)
-    recB, orderB, got, errs, finalB, _ = run(True)
+    recB, orderB, got, errs, finalB, simB_state = run(True)
     res = {"boundaries": len(recA), "served": len(got), "client_errors": errs, "trajectory_equal": finalA == finalB and orderA == orderB,
+           "unobserved_equal": simB_state == unobs,
+           "unobserved_differing_doubles": sum(1 for a, b in zip(simB_state[0] + simB_state[1], unobs[0] + unobs[1]) if a != b),
            "unparsable": 0, "not_a_boundary": [], "full_stream_mismatch": 0, "continued": 0, "continuation_mismatch": [], "distinct_served": 0}
     seen = set()
     cont_budget = p.get("continue", 6)
